@@ -24,6 +24,11 @@ fn ids() -> Vec<Id> {
         Id::v4(&text(255, Content::Ascii7, 5), 2, 65_535),
         Id::v4(&text(256, Content::Mixed, 6), 3, 7),
         Id::v4(&text(1_600, Content::Mixed, 7), u64::MAX, 8),
+        // address classes a normalising encoder could fold into one another
+        Id { node_id: "mapped".into(), generation: 4, addr: "[::ffff:10.0.0.7]:7280".parse().unwrap() },
+        Id { node_id: "compat".into(), generation: 5, addr: "[::10.0.0.7]:7280".parse().unwrap() },
+        Id { node_id: "v6loop".into(), generation: 6, addr: "[::1]:1".parse().unwrap() },
+        Id { node_id: "bcast".into(), generation: 7, addr: "255.255.255.255:65535".parse().unwrap() },
     ]
 }
 
@@ -399,7 +404,26 @@ pub fn real_emissions(want: &[&str], tier: Tier, deadline: Instant) -> Part {
                 capped.store(true, std::sync::atomic::Ordering::Relaxed);
                 return (t, v);
             }
-            let mut node = Node::new(&Id::v4("owner", 1, 10_001), &NodeOpts::default());
+            let owner_ids = [
+                Id::v4("owner", 1, 10_001),
+                Id { node_id: "owner-mapped".into(), generation: 1, addr: "[::ffff:10.0.0.7]:7280".parse().unwrap() },
+                Id { node_id: "owner-v6".into(), generation: u64::MAX, addr: "[2001:db8::1]:65535".parse().unwrap() },
+            ];
+            let mut node = Node::new(&owner_ids[ci % owner_ids.len()], &NodeOpts::default());
+            // the owner also knows (and advertises, with data) members whose ids use every address class
+            {
+                let others = ids();
+                let digest: Vec<DigestEntry> = others.iter().map(|id| DigestEntry { id: id.clone(), heartbeat: 1, gc: 0, mv: 0 }).collect();
+                node.cc.verif_process_message(real::build_real(&Msg::Syn { digest, cluster_id: "c".into() }).unwrap());
+                let mut ops = vec![];
+                for (k, id) in others.iter().enumerate() {
+                    if (k + ci) % 3 == 0 {
+                        ops.push(Op::Node { id: id.clone(), gc: 0, from: 0 });
+                        ops.push(Op::Kv { key: "mk".into(), value: "mv".into(), version: 1 + k as u64, status: (k % 3) as u8 });
+                    }
+                }
+                node.cc.verif_process_message(real::build_real(&Msg::Ack { ops }).unwrap());
+            }
             let mut shape = vec![];
             for (i, (kl, vl, st)) in kvs.iter().enumerate() {
                 let key = if *kl <= 5 { format!("{}", "kkkkk".chars().take(*kl).collect::<String>() + &i.to_string()) } else { text(*kl, *content, (ci * 10 + i) as u64) };
